@@ -29,7 +29,6 @@ import (
 	"github.com/crewjam/saml"
 	"github.com/crewjam/saml/samlidp"
 	"github.com/crewjam/saml/samlsp"
-	"github.com/crewjam/saml/xmlenc"
 )
 
 // Concretisation of spec/Totality.tla (C09): every vector is a document given by
@@ -120,10 +119,13 @@ type c09In struct {
 	Lo       *c09Lo   `json:"lo,omitempty"`
 	Rq       *c09Rq   `json:"rq,omitempty"`
 	Md       *c09MD   `json:"md,omitempty"`
-	Trust    string   `json:"trust,omitempty"` // how the SP trusts the IdP: md1 | md2 | md0 | mdbad | pin | fp256 | fp512
-	Ki       string   `json:"ki,omitempty"`    // what the KeyInfo of every signature in the message holds
-	Shape    string   `json:"shape,omitempty"` // nesting shape of EntitiesDescriptor elements
-	Depth    string   `json:"depth,omitempty"` // depth class of the nesting
+	Trust    string   `json:"trust,omitempty"`  // how the SP trusts the IdP: md1 | md2 | md0 | mdbad | pin | fp256 | fp512
+	Ki       string   `json:"ki,omitempty"`     // what the KeyInfo of every signature in the message holds
+	Shape    string   `json:"shape,omitempty"`  // nesting shape of EntitiesDescriptor elements
+	Depth    string   `json:"depth,omitempty"`  // depth class of the nesting
+	Encx     *c09EncX `json:"encx,omitempty"`   // what an EncryptedAssertion holds
+	Bound    string   `json:"bound,omitempty"`  // what ends the wait for a stalled resolver: client | deadline | cancel | none
+	Client   string   `json:"client,omitempty"` // sp.HTTPClient: default (nil) | custom (no timeout) | timeout
 }
 
 type c09Pred struct {
@@ -199,24 +201,13 @@ func c09Instant(t time.Time) *string { return sp(t.UTC().Format("2006-01-02T15:0
 // ---------------------------------------------------------------------------
 // Response + Assertion
 
-func c09Encrypt(plain []byte) *etree.Element {
-	e := xmlenc.OAEP()
-	e.BlockCipher = xmlenc.AES128CBC
-	e.DigestMethod = &xmlenc.SHA1
-	ed, err := e.Encrypt(key("sp").Cert, plain, nil)
-	if err != nil {
-		panic(err)
-	}
-	ed.CreateAttr("Type", "http://www.w3.org/2001/04/xmlenc#Element")
-	ea := etree.NewElement("saml:EncryptedAssertion")
-	ea.CreateAttr("xmlns:saml", nsAssertion)
-	ea.AddChild(ed)
-	return ea
-}
-
-func (c *c09Ctx) assertionEl(a c09Assn, n int, ki string) *etree.Element {
+func (c *c09Ctx) assertionEl(a c09Assn, n int, ki string, x *c09EncX) *etree.Element {
 	k, _ := json.Marshal(a)
 	mk := fmt.Sprintf("assn/%d/%s/%s", n, ki, k)
+	if a.Enc != "no" {
+		mk += "/" + x.String()
+	}
+	c09Encrypt := func(plain []byte) *etree.Element { return c09EncryptX(plain, x, mk) }
 	return c.memo(mk, func() any {
 		s := AssnSpec{ID: fmt.Sprintf("id-assn-%d-%s", n, hashKey(string(k))), IssueInstant: c09Instant(c.now),
 			NoSubject: !a.Subj, NoConditions: a.Cond == "absent", NoAuthn: !a.Authn,
@@ -280,9 +271,15 @@ func (c *c09Ctx) assertionEl(a c09Assn, n int, ki string) *etree.Element {
 }
 
 // responseEl builds (once) the Response of the vector; extra is a huge attribute value or "".
-func (c *c09Ctx) responseEl(r *c09Resp, extra string, ki string) *etree.Element {
+func (c *c09Ctx) responseEl(r *c09Resp, extra string, ki string, x *c09EncX) *etree.Element {
 	k, _ := json.Marshal(r)
 	mk := fmt.Sprintf("resp/%d/%s/%s", len(extra), ki, k)
+	for _, a := range r.Assns {
+		if a.Enc != "no" {
+			mk += "/" + x.String()
+			break
+		}
+	}
 	return c.memo(mk, func() any {
 		s := RespSpec{ID: "id-resp-" + hashKey(string(k)), IssueInstant: c09Instant(c.now)}
 		if r.Irt {
@@ -302,7 +299,7 @@ func (c *c09Ctx) responseEl(r *c09Resp, extra string, ki string) *etree.Element 
 			s.Status = sp(statusOK)
 		}
 		for i, a := range r.Assns {
-			s.Assertions = append(s.Assertions, c.assertionEl(a, i+1, ki).Copy())
+			s.Assertions = append(s.Assertions, c.assertionEl(a, i+1, ki, x).Copy())
 		}
 		el := buildResponse(s)
 		if extra != "" {
@@ -317,7 +314,7 @@ func (c *c09Ctx) responseEl(r *c09Resp, extra string, ki string) *etree.Element 
 }
 
 // envelopeXML wraps the response in an ArtifactResponse inside a SOAP envelope.
-func (c *c09Ctx) envelopeXML(e *c09Env, r *c09Resp, resolveID string, res string, extra string, ki string) []byte {
+func (c *c09Ctx) envelopeXML(e *c09Env, r *c09Resp, resolveID string, res string, extra string, ki string, x *c09EncX) []byte {
 	mk := func(id string) *etree.Element {
 		el := etree.NewElement("samlp:ArtifactResponse")
 		el.CreateAttr("xmlns:saml", nsAssertion)
@@ -341,7 +338,7 @@ func (c *c09Ctx) envelopeXML(e *c09Env, r *c09Resp, resolveID string, res string
 			el.CreateElement("samlp:Status").CreateElement("samlp:StatusCode").CreateAttr("Value", statusOK)
 		}
 		if e.Inner {
-			el.AddChild(c.responseEl(r, "", ki).Copy())
+			el.AddChild(c.responseEl(r, "", ki, x).Copy())
 		}
 		if e.Sig {
 			el = signEnveloped(el, key("idp1"), SigOpts{})
@@ -760,8 +757,13 @@ func c09Unstable(doc []byte, rng *rand.Rand) []byte {
 		return []byte("<x::Root/>")
 	}
 	// (attribute forms such as :a="1" or xmlns:="u" round-trip on current Go and are accepted)
+	first := s[:i] + ":x:y" + s[i:]
+	if j := strings.Index(s, ":"); j >= 0 && j < i && !strings.Contains(s[:j], "?") {
+		// the first colon is the one of the root element's name (not one inside an attribute value or the prolog)
+		first = strings.Replace(s, ":", "::", 1)
+	}
 	alts := []string{
-		strings.Replace(s, ":", "::", 1),
+		first,
 		s[:i] + ":x:y" + s[i:],
 		"<x::Root/>",
 		`<a xmlns:x="urn:x"><x:b:c/></a>`,
@@ -903,6 +905,7 @@ type c09Obs struct {
 	Calls    []string `json:"calls,omitempty"`
 	GrowthMB float64  `json:"growth_mb,omitempty"`
 	Variant  string   `json:"variant,omitempty"`
+	Broken   string   `json:"broken,omitempty"` // the harness could not set the case up (never a verdict)
 }
 
 // respResult applies the oracle of the response-parsing entry points.
@@ -1136,7 +1139,7 @@ func (c *c09Ctx) runResp(v *c09Vec, rng *rand.Rand) []c09Obs {
 	var out []c09Obs
 	switch in.Entry {
 	case "xml", "post":
-		good := func(extra string) []byte { return docBytes(c.responseEl(in.Resp, extra, in.Ki)) }
+		good := func(extra string) []byte { return docBytes(c.responseEl(in.Resp, extra, in.Ki, in.Encx)) }
 		for _, x := range c09Frame(v, good, false, rng) {
 			o := c09Obs{Variant: x.name}
 			doc, data := x.doc(good), ""
@@ -1155,7 +1158,9 @@ func (c *c09Ctx) runResp(v *c09Vec, rng *rand.Rand) []c09Obs {
 			out = append(out, o)
 		}
 	case "artxml":
-		good := func(extra string) []byte { return c.envelopeXML(in.Env, in.Resp, c09ResolveID, "ok", extra, in.Ki) }
+		good := func(extra string) []byte {
+			return c.envelopeXML(in.Env, in.Resp, c09ResolveID, "ok", extra, in.Ki, in.Encx)
+		}
 		for _, x := range c09Frame(v, good, false, rng) {
 			o := c09Obs{Variant: x.name}
 			doc := x.doc(good)
@@ -1165,6 +1170,9 @@ func (c *c09Ctx) runResp(v *c09Vec, rng *rand.Rand) []c09Obs {
 			out = append(out, o)
 		}
 	case "artifact":
+		if c09Stalled(in.Res) {
+			return c.runStall(v)
+		}
 		// the resolver needs the ID of the ArtifactResolve it is answering
 		for _, x := range c09Frame(v, nil, false, rng) {
 			o := c09Obs{Variant: x.name}
@@ -1176,7 +1184,7 @@ func (c *c09Ctx) runResp(v *c09Vec, rng *rand.Rand) []c09Obs {
 				if m := reResolveID.FindSubmatch(req); m != nil {
 					id = string(m[1])
 				}
-				body := x.doc(func(extra string) []byte { return c.envelopeXML(in.Env, in.Resp, id, in.Res, extra, in.Ki) })
+				body := x.doc(func(extra string) []byte { return c.envelopeXML(in.Env, in.Resp, id, in.Res, extra, in.Ki, in.Encx) })
 				resp := &http.Response{StatusCode: 200, Status: "200 OK", Header: http.Header{"Content-Type": {"text/xml"}}, Request: r}
 				switch in.Res {
 				case "connerr":
@@ -1463,7 +1471,7 @@ func (c *c09Ctx) runIDPMD(v *c09Vec, rng *rand.Rand) []c09Obs {
 	doc := c09IDPMetadataXML(in.Md)
 	o := c09Obs{Variant: "ok"}
 	resp := docBytes(c.responseEl(&c09Resp{Iss: true, Dest: true, Irt: true, Status: "ok", Sig: true,
-		Assns: []c09Assn{{Iss: true, Subj: true, NameID: true, Confs: []string{"data"}, Cond: "aud", Authn: true, Attr: true, Sig: true, Enc: "no"}}}, "", ""))
+		Assns: []c09Assn{{Iss: true, Subj: true, NameID: true, Confs: []string{"data"}, Cond: "aud", Authn: true, Attr: true, Sig: true, Enc: "no"}}}, "", "", nil))
 	lo := c.logoutXML(&c09Lo{Iss: true, Dest: true, Status: "ok", Sig: true, II: true, Irt: true}, "", "")
 	c09Guard(&o, c09Watchdog, func() {
 		md, err := samlsp.ParseMetadata(doc)
